@@ -162,7 +162,7 @@ def meta(tier):
                 'deviation: drop / duplicate / garble (5 characters) each token, drop / duplicate each line, insert a zero-length '
                 'directive at each position, and the four must-reject replacements (undefined label, unknown mnemonic, operands no '
                 'variant accepts, a stray comma or a stray character after the operands, value just outside its field on either side), a directive with an unresolvable label inserted at each '
-                'position (also directives that emit nothing: .fill 0, x); expression-length family (N in 8,16,24,32,64 tokens in every expression position); long-word family (an operand, string or '
+                'position (also directives that emit nothing: .fill 0, x); the repository\'s example programs (quick: the small ones) damaged one line at a time (dropped, doubled, first word garbled, last character dropped) under rotating output configurations, judged on the invariants; expression-length family (N in 8,16,24,32,64 tokens in every expression position); long-word family (an operand, string or '
                 'bracket that is opened and never closed, followed by one word of 16..64 characters or many short ones, in 25 positions); '
                 'empty-image family (5 programs that assemble to no byte at all x configurations x output pre-seeded / absent: the image must exist afterwards); '
                 'wide-address family (address widths 24/32/40/64 x code at 7 addresses around 2^16, 2^24, 2^32, 2^40, 2^48 x every format, where a '
@@ -227,10 +227,48 @@ def execute(acc, lines, what, must, clause, cfg, preseed=True, isa=None, include
     return out
 
 
+def corpus_deviations(acc, idx, n, q):
+    """The repository's example programs under their own definitions, damaged one line at a time (line dropped, line doubled, first word
+    garbled, last character dropped): whatever the outcome, the run terminates, a failure leaves the existing output file alone and a
+    reported success has written the image."""
+    from mc import corpus
+    ctr = 0
+    for prog in corpus.programs(small_only=q):
+        text = prog[3][prog[4]]
+        lines = text.split('\n')
+        step = 1 if len(lines) <= 120 else 5          # long programs: every fifth line
+        for i in range(0, len(lines), step):
+            if not lines[i].strip():
+                continue
+            first = lines[i].split()[0]
+            damaged = {
+                'dropped': lines[:i] + lines[i + 1:],
+                'doubled': lines[:i + 1] + lines[i:],
+                'first word garbled': lines[:i] + [lines[i].replace(first, first[:-1] + '~', 1)] + lines[i + 1:],
+                'last character dropped': lines[:i] + [lines[i].rstrip()[:-1]] + lines[i + 1:],
+            }
+            for what, new in damaged.items():
+                ctr += 1
+                if ctr % n != idx:
+                    continue
+                cfg = CONFIGS[ctr % len(CONFIGS)]
+                files = dict(prog[3])
+                files[prog[4]] = '\n'.join(new)
+                case = corpus.case_for(prog, files=files, preseed=True, pretty=cfg.get('pretty'), start=cfg.get('start', 0), end=cfg.get('end'),
+                                       fill=cfg.get('fill', 0), binary=cfg.get('binary', True), verbose=cfg.get('verbose', 0))
+                out = acc.run(case)
+                spec = {'type': 'c14', 'preseed': True, 'must_reject': None, 'deviation': f'{prog[0]} line {i + 1} {what}', 'binary': cfg.get('binary', True)}
+                msg = judge(spec, [out])
+                if msg:
+                    acc.violation([case], spec, f'example program {prog[0]}, line {i + 1} {what}: {msg}', [out])
+                acc.judge(clause='invariants', nontrivial_key=('corpus', prog[0], i, what) if out.status != 'OK' else None)
+
+
 def shard(acc, tier, idx, n):
     q = tier == 'quick'
     acc.timeout = 10.0
     ctr = 0
+    corpus_deviations(acc, idx, n, q)
     for bname, lines in BASES.items():
         # the base programs themselves must assemble under every configuration
         for cfg in CONFIGS:
